@@ -9,6 +9,9 @@ require (
 	github.com/remieven/ysgo v0.0.0
 )
 
-require golang.org/x/exp v0.0.0-20240808152545-0cdaa3abc0fa // indirect
+require (
+	golang.org/x/exp v0.0.0-20240808152545-0cdaa3abc0fa // indirect
+	golang.org/x/tools v0.29.0
+)
 
 replace github.com/remieven/ysgo => /repo
